@@ -32,6 +32,14 @@ thread_local! {
     static PROBES: RefCell<[u64; NSITES]> = const { RefCell::new([0; NSITES]) };
     static SIM: RefCell<Option<Arc<SimThread>>> = const { RefCell::new(None) };
     static COLD_INIT: Cell<bool> = const { Cell::new(false) };
+    /// Rolling hash of the hook sites hit during the current call: the path the library
+    /// took. A function of the call alone on a tree where calls are pure.
+    static CALLSIG: Cell<u64> = const { Cell::new(0) };
+}
+
+/// Path signature of the most recent guarded call on this thread.
+pub fn last_sig() -> u64 {
+    CALLSIG.with(|c| c.get())
 }
 
 pub fn install() {
@@ -62,6 +70,7 @@ pub fn did_cold_init() -> bool {
 
 pub fn begin_call(crash_at: u64) {
     STEPS.with(|s| s.set(0));
+    CALLSIG.with(|c| c.set(0xcbf2_9ce4_8422_2325));
     CRASH_AT.with(|c| c.set(crash_at));
     ACTIVE.with(|a| a.set(true));
 }
@@ -87,6 +96,7 @@ fn on_step(site_id: u32) {
         return;
     }
     CLOCK.fetch_add(1, Ordering::Relaxed);
+    CALLSIG.with(|c| c.set((c.get() ^ site_id as u64).wrapping_mul(0x0000_0100_0000_01B3)));
     TOTAL_STEPS.with(|t| t.set(t.get() + 1));
     let s = STEPS.with(|s| {
         let v = s.get() + 1;
